@@ -39,7 +39,11 @@ struct ForceSnap { std::vector<std::vector<vec3>> f; };
 inline ForceSnap forces_of(const std::vector<cell_ptr>& cells) { ForceSnap s; for (auto& c : cells) { s.f.emplace_back(); for (const node& n : c->node_lst_) s.f.back().push_back(n.is_used_ ? n.force_ : vec3(0, 0, 0)); } return s; }
 inline void zero_forces(const std::vector<cell_ptr>& cells) { for (auto& c : cells) for (node& n : c->node_lst_) n.force_.reset(); }
 // what the solver guarantees before the contact phase: fresh face normals/areas and node normals/curvatures
-inline void prepare(const std::vector<cell_ptr>& cells) { for (unsigned i = 0; i < cells.size(); i++) { cell& c = *cells[i]; c.set_id(i); c.set_local_id(i); c.update_all_face_normals_and_areas(); c.area_ = c.compute_area(); c.volume_ = c.compute_volume();
+// ID_SCHEMES: the persistent ids a population can carry while its list positions are 0..n-1 (solver start-up; after the first cell of the list was removed; after a middle cell was
+// removed; late in a run).  Ids are labels: no contact result may depend on them.
+static const int N_ID_SCHEMES = 4;
+inline unsigned scheme_id(int scheme, unsigned i) { switch (scheme) { case 0: return i; case 1: return i + 1; case 2: return 2 * i; default: return 3 + 4 * i; } }
+inline void prepare(const std::vector<cell_ptr>& cells, int id_scheme = 0) { for (unsigned i = 0; i < cells.size(); i++) { cell& c = *cells[i]; c.set_id(scheme_id(id_scheme, i)); c.set_local_id(i); c.update_all_face_normals_and_areas(); c.area_ = c.compute_area(); c.volume_ = c.compute_volume();
 #if CONTACT_MODEL_INDEX != 0
         c.compute_node_curvature_and_normals();
 #endif
